@@ -277,8 +277,11 @@ def run(ctx, res):
                 found = False
                 for rep in I.loop_reports:
                     if rep.fn == d:
-                        for a, _ in rep.carried:
-                            if solver.entails(s.pc, flit(eq(Lin.atom(a), LEN - P))):
+                        for a, init in rep.carried:
+                            # (the walk's position is the carried counter, counted from wherever the code starts it: from
+                            # byte 4, or from 0 with the header added at each use)
+                            shift = 4 - lin(init) if lin(init).is_const() else lin(0)
+                            if solver.entails(s.pc, flit(eq(Lin.atom(a) + shift, LEN - P))):
                                 found = True
                 n_r1 += 1
                 res.ob(found, "walk-end", d, "Sdes: the chunk walk of a padded packet ends exactly at len - padding", pc=s.pc, entry=d)
